@@ -32,6 +32,9 @@ pub struct Opts {
     /// (taint is propagated and value / failure-class oracles are off for tainted steps), but the memory-safety
     /// oracles stay on: no signal, no guard-page hit, borrowed operands untouched, text still ASCII.
     pub keep_unwound: bool,
+    /// after every step, every object the step wrote is serialized with the token recorder of `scn_c17`, compared
+    /// with the portable form of the integer it denotes, and read back (C17 over value histories)
+    pub c17: bool,
 }
 
 #[derive(Clone, Copy, Debug, Default, PartialEq)]
@@ -42,6 +45,7 @@ pub enum Cover {
     C14,
     C15,
     C16,
+    C17,
 }
 
 fn hash_of<T: Hash>(x: &T) -> u64 {
@@ -442,6 +446,14 @@ pub fn run_history(plan: &Plan, opts: Opts) -> RunResult {
             let (nu, ni) = named_masks(s);
             (nu & poison_u) != 0 || (ni & poison_i) != 0
         };
+        if tainted {
+            // taint and transcript are settled here, before anything that looks at the contents of an unwound object
+            // (whether the step is skipped, returns or panics may differ between builds: debug assertions)
+            let (nu, ni) = named_masks(s);
+            poison_u |= nu;
+            poison_i |= ni;
+            dg.u64(0x7a1);
+        }
         if tainted
             && (matches!(op, "u.int" | "i.int" | "u.root" | "i.root" | "u.modpow" | "i.modpow" | "u.modinv" | "i.modinv" | "u.pow" | "i.pow" | "u.powbig" | "u.rand" | "i.rand")
                 || (op.ends_with(".checked") && s.str("o") == "pow"))
@@ -535,21 +547,14 @@ pub fn run_history(plan: &Plan, opts: Opts) -> RunResult {
             // a step over an unwound object: returning and panicking are both acceptable, values are unspecified;
             // what was written is tainted as well. Only the memory-safety oracles below apply.
             res.fault("unwound.object_reused");
-            let (du, di) = dest_masks(s);
-            match &out {
-                Ok(()) => {
-                    poison_u |= obs.wrote_u;
-                    poison_i |= obs.wrote_i;
-                    dg.u64(0x7a1);
-                }
-                Err(_) => {
-                    poison_u |= du;
-                    poison_i |= di;
-                    obs.wrote_u = 0xff;
-                    obs.wrote_i = 0xff;
-                    obs.texts.clear();
-                    dg.u64(0x7a2);
-                }
+            // (taint and transcript must not depend on whether the step returned or panicked: debug assertions make
+            // that differ between builds, and the same plan must give the same transcript in every build)
+            poison_u |= obs.wrote_u;
+            poison_i |= obs.wrote_i;
+            if out.is_err() {
+                obs.wrote_u = 0xff;
+                obs.wrote_i = 0xff;
+                obs.texts.clear();
             }
             if opts.c15 {
                 for (txt, radix, _) in &obs.texts {
@@ -699,6 +704,37 @@ pub fn run_history(plan: &Plan, opts: Opts) -> RunResult {
                 prov_i[r] = key;
             }
         }
+        #[cfg(feature = "opt")]
+        if opts.c17 {
+            let mut bad: Option<(&'static str, String)> = None;
+            let r = catch(|| {
+                let mut bad = None;
+                for r in 0..NU {
+                    if obs.wrote_u & (1 << r) != 0 && bad.is_none() {
+                        bad = crate::scn_c17::history_oracle_u(&m.u[r]).map(|(o, d)| (o, format!("BigUint register {r}: {d}")));
+                    }
+                }
+                for r in 0..NI {
+                    if obs.wrote_i & (1 << r) != 0 && bad.is_none() {
+                        bad = crate::scn_c17::history_oracle_i(&m.i[r]).map(|(o, d)| (o, format!("BigInt register {r}: {d}")));
+                    }
+                }
+                bad
+            });
+            match r {
+                Ok(b) => bad = b,
+                Err(p) => bad = Some(("panic", format!("serialize / deserialize panicked: {p}"))),
+            }
+            if let Some((oracle, detail)) = bad {
+                res.violate("C17", oracle, &api, si, detail);
+                res.digest = dg.0;
+                return res;
+            }
+            if opts.cover == Cover::C17 && (obs.wrote_u | obs.wrote_i) != 0 {
+                res.nontrivial = true;
+                res.cover.insert(fnv(format!("c17h|{api}").as_bytes()));
+            }
+        }
         if opts.c04 && !check_c04(&m, &arch_u, &arch_i, obs.wrote_u, obs.wrote_i, s, si, &prov_u, &prov_i, &mut res) {
             res.digest = dg.0;
             return res;
@@ -722,6 +758,16 @@ pub fn run_history(plan: &Plan, opts: Opts) -> RunResult {
                 }
                 dg.u64(0x69);
             }
+        }
+    }
+    for r in 0..NU {
+        if poison_u & (1 << r) != 0 {
+            m.u[r] = BigUint::default();
+        }
+    }
+    for r in 0..NI {
+        if poison_i & (1 << r) != 0 {
+            m.i[r] = BigInt::default();
         }
     }
     m.state_digest(&mut dg);
